@@ -3,7 +3,9 @@
 //! usage: sweep <ID> --tier quick|thorough --out <report.json> [--replay <witness.json>] [--seed N]
 
 mod common;
+mod c01;
 mod c02;
+mod fspace;
 mod c09;
 mod frames;
 mod c04;
@@ -92,6 +94,7 @@ fn main() {
 
 fn dispatch(id: &str, ctx: &Ctx, rep: &Report) {
     match id {
+        "C01" => c01::run(ctx, rep),
         "C02" => c02::run(ctx, rep),
         "C04" => c04::run(ctx, rep),
         "C05" => c05::run(ctx, rep),
@@ -109,6 +112,7 @@ fn dispatch(id: &str, ctx: &Ctx, rep: &Report) {
 
 fn dispatch_replay(id: &str, w: &serde_json::Value, rep: &Report) {
     match id {
+        "C01" => c01::replay(w, rep),
         "C02" => c02::replay(w, rep),
         "C04" => c04::replay(w, rep),
         "C05" => c05::replay(w, rep),
